@@ -149,7 +149,15 @@ func genC12(rc *RunCtx) (*C1, *c12Info, bool) {
 		bad = bad[:l]
 	case 4: // extension by 1-6 bytes
 		info.Pos = n
-		bad = append(bad, t.Bytes(1+t.Choose(6))...)
+		ext := t.Bytes(1 + t.Choose(6))
+		if t.Choose(3) == 0 {
+			// line-idle / bus-release bytes
+			for i := range ext {
+				ext[i] = []byte{0xFF, 0x00}[(int(ext[i])>>3)&1]
+			}
+			ext[len(ext)-1] = 0xFF
+		}
+		bad = append(bad, ext...)
 	case 5: // a segment arrives twice (echo)
 		i := t.Choose(n)
 		l := 1 + t.Choose(min(4, n-i))
